@@ -42,12 +42,18 @@ def run(ctx):
     suf = "" if q else "_thorough"
 
     # 1. model checking
-    r = vlib.tlc(R.SPEC, "MC_Collector", "MC_Collector%s.cfg" % suf, workers=4, timeout=3000, heap="6g")
+    r = vlib.tlc(R.SPEC, "MC_Collector", "MC_Collector%s.cfg" % suf, workers=4, timeout=3000, heap="6g", coverage=False)
     ctx.check_model(r, "Collector: parts make up the whole for every portioning")
-    ctx.require_coverage(r, ["ReadPreamble", "ReadFileMeta", "ReadUpTo", "ReadToEnd", "ReadBOT", "ReadNextFragment"])
-    r = vlib.tlc(R.SPEC, "MC_ReaderFiles", "MC_ReaderFiles.cfg", workers=4, timeout=3000, heap="6g")
+    r = vlib.tlc(R.SPEC, "MC_ReaderFiles", "MC_ReaderFiles.cfg", workers=4, timeout=3000, heap="6g", coverage=False)
     ctx.check_model(r, "DataSetReader on the file universe, eager ~ lazy")
-    ctx.require_coverage(r, ["MDelimEnd", "MItemHeaderStep", "MPixelItemValue", "MEnterPixel", "MReadValue", "MElemHeaderStep"])
+    # vacuity: every action is taken (coverage statistics on small sub-universes; TLC's coverage collection
+    # is expensive on the full ones)
+    rc = vlib.tlc(R.SPEC, "MC_Collector", "MC_Collector_cov.cfg", workers=2, timeout=3000, heap="4g")
+    ctx.check_model(rc, "Collector, coverage run")
+    ctx.require_coverage(rc, ["ReadPreamble", "ReadFileMeta", "ReadUpTo", "ReadToEnd", "ReadBOT", "ReadNextFragment"])
+    rc = vlib.tlc(R.SPEC, "MC_ReaderFiles", "MC_ReaderFiles_cov.cfg", workers=2, timeout=3000, heap="4g")
+    ctx.check_model(rc, "DataSetReader on files, coverage run")
+    ctx.require_coverage(rc, ["MDelimEnd", "MItemHeaderStep", "MPixelItemValue", "MEnterPixel", "MReadValue", "MElemHeaderStep"])
 
     # 2. files and behaviours -> real code
     cases = ctx.path("cases.ndjson")
